@@ -735,7 +735,15 @@ def r_find(ck: Checker) -> None:
     what = "a path that does not start with '/' is compiled as '//' + path"
     ok = any(isinstance(st, ast.If) and norm(st.test) == "not xpath.startswith('/')" and len(st.body) == 1 and norm(st.body[0]) == "xpath = '//' + xpath"
              for st in c.node.body)
-    (ck.holds if ok else ck.violation)("R-XP-FIND", c, c.node, what, **({} if ok else {"construct": "ASTXpath.__init__: relative path normalisation not recognised"}))
+    if ok:
+        ck.holds("R-XP-FIND", c, c.node, what)
+    elif not any(isinstance(x, ast.Call) and isinstance(x.func, ast.Attribute) and x.func.attr == "startswith" for x in ast.walk(c.node)) \
+            and not any(isinstance(x, ast.Constant) and x.value == "//" for x in ast.walk(c.node)):
+        ck.violation("R-XP-FIND", c, c.node, what, construct="ASTXpath.__init__: a relative path is not prefixed with '//' at all")
+    elif any(isinstance(x, ast.BinOp) and isinstance(x.op, ast.Add) and isinstance(x.left, ast.Constant) and x.left.value == "/" for x in ast.walk(c.node)):
+        ck.violation("R-XP-FIND", c, c.node, what, construct="ASTXpath.__init__: a relative path is prefixed with '/' (children of the root only) instead of '//'")
+    else:
+        raise Unsupported("ASTXpath.__init__: relative path normalisation not recognised", c.node)
 
 
 def r_empty_step(ck: Checker, modname: str = XP) -> None:
